@@ -99,6 +99,111 @@ type c18Step struct {
 	err     error
 }
 
+type localObs struct {
+	steps    []c18Step
+	toks     []string
+	localErr error
+	xid      string
+	crash    string
+	obs      string
+	items    []undoItemView
+	brs      []BranchInfo
+	rawKeys  string
+}
+
+// execLocalObserved runs the case's first local transaction inside a global transaction, reading the
+// table (and evaluating each WHERE clause separately) around every statement.
+func execLocalObserved(w *ATWorld, cs *ATCase, cid string) *localObs {
+	lo := &localObs{}
+	sc := cs.Schema
+	w.SetUndoConfig(cs.Ser, cs.Comp, cs.Validate, cs.OnlyCare)
+	sc.Create(w.Eng)
+	for _, row := range cs.Rows {
+		w.Eng.InsertRows(sc.Table, toMemRow(row))
+	}
+	w.coord.ResetLog()
+	ltx := cs.Locals[0]
+	lo.crash = safeCall(func() {
+		lo.xid, _ = InGlobalTx(cid, func(ctx context.Context) error {
+			lo.toks = append(lo.toks, "L")
+			if ltx.Explicit {
+				tx, err := w.DB.BeginTx(ctx, nil)
+				if err != nil {
+					lo.localErr = err
+					return err
+				}
+				for _, st := range ltx.Stmts {
+					q, args, tok := st.Render(sc)
+					lo.toks = append(lo.toks, tok)
+					if lo.localErr != nil {
+						continue
+					}
+					step := c18Step{st: st}
+					step.before, _ = tableByKey(ctx, tx, sc, "", nil)
+					if st.Kind != 'X' {
+						wsql, wargs := st.WhereSQL(sc)
+						step.matched, _ = tableByKey(ctx, tx, sc, wsql, wargs)
+					}
+					_, step.err = tx.ExecContext(ctx, q, args...)
+					if step.err == nil {
+						step.after, _ = tableByKey(ctx, tx, sc, "", nil)
+					}
+					lo.steps = append(lo.steps, step)
+					lo.localErr = step.err
+				}
+				if lo.localErr != nil {
+					tx.Rollback()
+				} else {
+					lo.localErr = tx.Commit()
+				}
+			} else {
+				st := ltx.Stmts[0]
+				q, args, tok := st.Render(sc)
+				lo.toks = append(lo.toks, tok)
+				step := c18Step{st: st}
+				step.before, _ = tableByKey(ctx, w.Bare, sc, "", nil)
+				if st.Kind != 'X' {
+					wsql, wargs := st.WhereSQL(sc)
+					step.matched, _ = tableByKey(ctx, w.Bare, sc, wsql, wargs)
+				}
+				_, step.err = w.DB.ExecContext(ctx, q, args...)
+				if step.err == nil {
+					step.after, _ = tableByKey(ctx, w.Bare, sc, "", nil)
+				}
+				lo.steps = append(lo.steps, step)
+				lo.localErr = step.err
+			}
+			return errors.New("roll back")
+		})
+	})
+	lo.toks = append(lo.toks, "END")
+	// ---- observation in the model's format
+	lo.obs = "L:err"
+	lo.brs = w.coord.RegisteredBranches(lo.xid)
+	brs := lo.brs
+	if lo.localErr == nil {
+		if len(brs) == 0 {
+			lo.obs = "L:ok:nobranch"
+		} else {
+			b := brs[len(brs)-1]
+			lo.rawKeys = b.LockKey
+			run := &ATRun{w: w, c: cs}
+			l, has := run.undoLogOf(b)
+			img := "noundolog"
+			if has {
+				img = showUndoLog(sc, l)
+				if l != nil {
+					for _, it := range l.Logs {
+						lo.items = append(lo.items, undoItemView{kind: it.SQLType, before: imageCells(sc, it.BeforeImage), after: imageCells(sc, it.AfterImage)})
+					}
+				}
+			}
+			lo.obs = fmt.Sprintf("L:ok:k=%s:img=%s", parseLockKeys(b.LockKey), img)
+		}
+	}
+	return lo
+}
+
 func runC18(c *Ctx) {
 	w := GetATWorld()
 	rng := NewRng(c.Seed)
@@ -120,95 +225,9 @@ func runC18(c *Ctx) {
 		if !c.Want(cid) {
 			continue
 		}
-		sc := cs.Schema
-		w.SetUndoConfig(cs.Ser, cs.Comp, cs.Validate, cs.OnlyCare)
-		sc.Create(w.Eng)
-		for _, row := range cs.Rows {
-			w.Eng.InsertRows(sc.Table, toMemRow(row))
-		}
-		w.coord.ResetLog()
-		ltx := cs.Locals[0]
-		var steps []c18Step
-		var toks []string
-		var localErr error
-		var xid string
-		crash := safeCall(func() {
-			xid, _ = InGlobalTx(cid, func(ctx context.Context) error {
-				toks = append(toks, "L")
-				if ltx.Explicit {
-					tx, err := w.DB.BeginTx(ctx, nil)
-					if err != nil {
-						localErr = err
-						return err
-					}
-					for _, st := range ltx.Stmts {
-						q, args, tok := st.Render(sc)
-						toks = append(toks, tok)
-						if localErr != nil {
-							continue
-						}
-						step := c18Step{st: st}
-						step.before, _ = tableByKey(ctx, tx, sc, "", nil)
-						if st.Kind != 'X' {
-							wsql, wargs := st.WhereSQL(sc)
-							step.matched, _ = tableByKey(ctx, tx, sc, wsql, wargs)
-						}
-						_, step.err = tx.ExecContext(ctx, q, args...)
-						if step.err == nil {
-							step.after, _ = tableByKey(ctx, tx, sc, "", nil)
-						}
-						steps = append(steps, step)
-						localErr = step.err
-					}
-					if localErr != nil {
-						tx.Rollback()
-					} else {
-						localErr = tx.Commit()
-					}
-				} else {
-					st := ltx.Stmts[0]
-					q, args, tok := st.Render(sc)
-					toks = append(toks, tok)
-					step := c18Step{st: st}
-					step.before, _ = tableByKey(ctx, w.Bare, sc, "", nil)
-					if st.Kind != 'X' {
-						wsql, wargs := st.WhereSQL(sc)
-						step.matched, _ = tableByKey(ctx, w.Bare, sc, wsql, wargs)
-					}
-					_, step.err = w.DB.ExecContext(ctx, q, args...)
-					if step.err == nil {
-						step.after, _ = tableByKey(ctx, w.Bare, sc, "", nil)
-					}
-					steps = append(steps, step)
-					localErr = step.err
-				}
-				return errors.New("roll back")
-			})
-		})
-		toks = append(toks, "END")
-		// ---- observation in the model's format
-		obs := "L:err"
-		var items []undoItemView
-		brs := w.coord.RegisteredBranches(xid)
-		if localErr == nil {
-			if len(brs) == 0 {
-				obs = "L:ok:nobranch"
-			} else {
-				b := brs[len(brs)-1]
-				run := &ATRun{w: w, c: cs}
-				l, has := run.undoLogOf(b)
-				img := "noundolog"
-				if has {
-					img = showUndoLog(sc, l)
-					if l != nil {
-						for _, it := range l.Logs {
-							items = append(items, undoItemView{kind: it.SQLType, before: imageCells(sc, it.BeforeImage), after: imageCells(sc, it.AfterImage)})
-						}
-					}
-				}
-				obs = fmt.Sprintf("L:ok:k=%s:img=%s", parseLockKeys(b.LockKey), img)
-			}
-		}
+		lo := execLocalObserved(w, cs, cid)
+		sc, ltx := cs.Schema, cs.Locals[0]
+		steps, toks, localErr, crash, obs, items, brs := lo.steps, lo.toks, lo.localErr, lo.crash, lo.obs, lo.items, lo.brs
 		c.Out.Case(cid, "C18", strings.Join(append(cs.headerToks(), toks...), " "), obs)
 		// ---- oracle: the images against the row-level difference around each statement
 		class, detail := "", ""
